@@ -225,7 +225,13 @@ def failure_key(case, obs, msg):
 
 def to_coq(case, obs):
     pipeline = [[p[0], None if p[1] is None else Fraction(p[1])] for p in obs["pipeline"]]
-    return dd.cq_import_case(case["dims"], pipeline, obs["om"], obs["um"], case["allow_missing"], case["allow_extra"], obs)
+    old = dd.cq_import_case(case["dims"], pipeline, obs["om"], obs["um"], case["allow_missing"], case["allow_extra"], obs)
+    if case["via"] not in ("from_df", "set_values_from_df") or obs.get("kind") not in ("ok", "err"):
+        return old
+    # the same call, judged by the model of the layout recognition on the table itself
+    rows = [[r[0], None if r[1] is None else Fraction(r[1])] for r in case["rows"]]
+    df = dd.build_df(case["dims"], rows, case["layout"])[0]
+    return f"(CBoth {old} {dd.cq_detect_case(case['dims'], df, case['allow_missing'], case['allow_extra'], obs)})"
 
 
 def nontrivial(case):
